@@ -90,9 +90,16 @@ Definition delay_corr (delays : list (option Q)) (freqs : list Q) : list (list p
   map (delay_corr_seg freqs) delays.
 
 (* ------------------------------------------------------------------ B: bandpass *)
+(* a[mask] with a per-element decision: keep the elements f maps to Some *)
+Fixpoint fmap {A B} (f : A -> option B) (l : list A) : list B :=
+  match l with
+  | [] => []
+  | a :: t => match f a with Some b => b :: fmap f t | None => fmap f t end
+  end.
 (* cal_freqs[valid], bp[valid] *)
-Definition valid_nodes (xs : list Q) (vs : list (option pv)) : list cnode :=
-  flat_map (fun xv => match snd xv with Some v => [(fst xv, v)] | None => [] end) (combine xs vs).
+Definition valid_node (xv : Q * option pv) : option cnode :=
+  match snd xv with Some v => Some (fst xv, v) | None => None end.
+Definition valid_nodes (xs : list Q) (vs : list (option pv)) : list cnode := fmap valid_node (combine xs vs).
 Definition bandpass_corr_seg (cal_freqs data_freqs : list Q) (bp : list (option pv)) : list (option pv) :=
   match valid_nodes cal_freqs bp with
   | [] => map (fun _ => None) data_freqs
@@ -106,16 +113,18 @@ Definition bandpass_corr (cal_freqs data_freqs : list Q) (segs : list (list (opt
    INVALID_GAIN placeholder (None; `value is INVALID_GAIN`) or the per-channel gains *)
 Definition sol := (nat * option (list (option pv)))%type.
 Definition rsol := (nat * list (option pv))%type.
-Definition real_sols (s : list sol) : list rsol :=
-  flat_map (fun s => match snd s with Some g => [(fst s, g)] | None => [] end) s.
+Definition real_sol (s : sol) : option rsol := match snd s with Some g => Some (fst s, g) | None => None end.
+Definition real_sols (s : list sol) : list rsol := fmap real_sol s.
 Definition qn (n : nat) : Q := inject_Z (Z.of_nat n).
 Definition target_at (targets : list Z) (d : nat) : Z := nth d targets 0%Z.
 (* events[valid], gains_per_chan[valid] with valid = isfinite(gains_per_chan) & on_target[events] *)
+Definition gain_node (targets : list Z) (tg : Z) (c : nat) (s : rsol) : option cnode :=
+  match nth c (snd s) None with
+  | Some v => if Z.eqb (target_at targets (fst s)) tg then Some (qn (fst s), v) else None
+  | None => None
+  end.
 Definition gain_nodes (rs : list rsol) (targets : list Z) (tg : Z) (c : nat) : list cnode :=
-  flat_map (fun s => match nth c (snd s) None with
-                     | Some v => if Z.eqb (target_at targets (fst s)) tg then [(qn (fst s), v)] else []
-                     | None => []
-                     end) rs.
+  fmap (gain_node targets tg c) rs.
 (* smooth_gains[d, c] followed by the reciprocal *)
 Definition gain_value (rs : list rsol) (targets : list Z) (d c : nat) : option pv :=
   match gain_nodes rs targets (target_at targets d) c with
